@@ -311,6 +311,7 @@ func runGolua(srcs []string, hostMode string) []host.Obs {
 		o.Err = "epilogue definition chunk: " + o.Err
 		return []host.Obs{o}
 	}
+	allCtx := true
 	for i, src := range srcs {
 		def := &rt.RuntimeContextDef{}
 		if i == 0 && hostMode == "call" {
@@ -318,6 +319,13 @@ func runGolua(srcs []string, hostMode string) []host.Obs {
 		}
 		o := m.Exec(chunkName, src, nil, def)
 		o.Trace = append([]string{}, o.Trace...)
+		// (values left pending by a plain rt.Call that failed are check C10's
+		// business: the close stack is only looked at while every call so far
+		// was made inside a context)
+		allCtx = allCtx && def != nil
+		if end := m.EndState(allCtx); end != "" && (o.Status == "ok" || o.Status == "err") {
+			o.Status, o.Err = "end-state", "after the host call returned ("+o.Status+") the main thread is not at rest: "+end
+		}
 		out = append(out, o)
 		if o.Status == "compile" || o.Status == "gopanic" {
 			break
